@@ -331,6 +331,29 @@ func ruleC18Memo(p *Prog, r *Res) {
 						return true
 					})
 					key := fmt.Sprintf("%s store %s#%d", lit.Key(), types.ExprString(ix.X), n)
+					// the key names the program counter the stored value was computed FROM: a variable that is assigned
+					// once (entry := pos) or a parameter that is never reassigned — not the cursor the walk advances
+					if ko := identObj(info, ix.Index); ko != nil {
+						assigns := 0
+						ast.Inspect(lit.Body(), func(y ast.Node) bool {
+							switch s := y.(type) {
+							case *ast.AssignStmt:
+								for _, l2 := range s.Lhs {
+									if sameObj(info, l2, ko) {
+										assigns++
+									}
+								}
+							case *ast.IncDecStmt:
+								if sameObj(info, s.X, ko) {
+									assigns++
+								}
+							}
+							return true
+						})
+						isParam := paramIndex(lit, ko) >= 0
+						stable := (isParam && assigns == 0) || (!isParam && assigns == 1)
+						r.Check(stable, rule, key+" keyed by the walk's entry", p.Pos(as), "key "+ko.Name()+" is never reassigned during the walk", "the memo key "+ko.Name()+" is the cursor the walk advances, but the stored value covers everything consumed since the walk was entered: a later walk that starts at this pc gets a result that is too large by the bytes consumed before it")
+					}
 					r.Check(!underStack, rule, key, p.Pos(as), "not under the recursion-stack test", "the memo is written inside the range over the recursion stack `"+stack.Name()+"`: the stored value depends on what is on the stack and is wrong when reused from another context (too-large MinLength)")
 					// the stored value must not derive from an accumulator parameter (its content depends on the path taken so far)
 					usesAcc := ""
